@@ -30,6 +30,16 @@ func Encode(input []byte) string {
 	return string(result)
 }
 
+// IsValid test if every character of input belongs to the base26 character set
+func IsValid(input []byte) bool {
+	for _, b := range input {
+		if bytes.IndexByte(b26AIphabet, b) < 0 {
+			return false
+		}
+	}
+	return true
+}
+
 // Decode
 func Decode(input []byte) []byte {
 	result := big.NewInt(0)
